@@ -169,12 +169,12 @@ proofs/CacheProofs.vos proofs/CacheProofs.vok proofs/CacheProofs.required_vos: p
 proofs/CapsProofs.vo proofs/CapsProofs.glob proofs/CapsProofs.v.beautified proofs/CapsProofs.required_vo: proofs/CapsProofs.v gen/Params.vo model/Bytes.vo model/Crc32c.vo model/Sha1.vo model/Id.vo model/Node.vo model/BSearch.vo model/Closest.vo model/RTable.vo model/Lru.vo model/Tokens.vo model/Server.vo proofs/LruProofs.vo proofs/ServerProofs.vo
 proofs/CapsProofs.vio: proofs/CapsProofs.v gen/Params.vio model/Bytes.vio model/Crc32c.vio model/Sha1.vio model/Id.vio model/Node.vio model/BSearch.vio model/Closest.vio model/RTable.vio model/Lru.vio model/Tokens.vio model/Server.vio proofs/LruProofs.vio proofs/ServerProofs.vio
 proofs/CapsProofs.vos proofs/CapsProofs.vok proofs/CapsProofs.required_vos: proofs/CapsProofs.v gen/Params.vos model/Bytes.vos model/Crc32c.vos model/Sha1.vos model/Id.vos model/Node.vos model/BSearch.vos model/Closest.vos model/RTable.vos model/Lru.vos model/Tokens.vos model/Server.vos proofs/LruProofs.vos proofs/ServerProofs.vos
-properties/C20.vo properties/C20.glob properties/C20.v.beautified properties/C20.required_vo: properties/C20.v gen/Params.vo model/Bytes.vo model/Lru.vo model/Server.vo model/Cache.vo model/Check20.vo proofs/CacheProofs.vo proofs/ServerProofs.vo proofs/CapsProofs.vo
-properties/C20.vio: properties/C20.v gen/Params.vio model/Bytes.vio model/Lru.vio model/Server.vio model/Cache.vio model/Check20.vio proofs/CacheProofs.vio proofs/ServerProofs.vio proofs/CapsProofs.vio
-properties/C20.vos properties/C20.vok properties/C20.required_vos: properties/C20.v gen/Params.vos model/Bytes.vos model/Lru.vos model/Server.vos model/Cache.vos model/Check20.vos proofs/CacheProofs.vos proofs/ServerProofs.vos proofs/CapsProofs.vos
-properties/C06.vo properties/C06.glob properties/C06.v.beautified properties/C06.required_vo: properties/C06.v model/Bytes.vo model/Inflight.vo model/PutQuery.vo proofs/InflightProofs.vo proofs/PutQueryProofs.vo
-properties/C06.vio: properties/C06.v model/Bytes.vio model/Inflight.vio model/PutQuery.vio proofs/InflightProofs.vio proofs/PutQueryProofs.vio
-properties/C06.vos properties/C06.vok properties/C06.required_vos: properties/C06.v model/Bytes.vos model/Inflight.vos model/PutQuery.vos proofs/InflightProofs.vos proofs/PutQueryProofs.vos
+properties/C20.vo properties/C20.glob properties/C20.v.beautified properties/C20.required_vo: properties/C20.v gen/Params.vo model/Bytes.vo model/Lru.vo model/Server.vo model/Cache.vo model/Check20.vo proofs/CacheProofs.vo proofs/ServerProofs.vo proofs/CapsProofs.vo model/Calls.vo proofs/CallsProofs.vo
+properties/C20.vio: properties/C20.v gen/Params.vio model/Bytes.vio model/Lru.vio model/Server.vio model/Cache.vio model/Check20.vio proofs/CacheProofs.vio proofs/ServerProofs.vio proofs/CapsProofs.vio model/Calls.vio proofs/CallsProofs.vio
+properties/C20.vos properties/C20.vok properties/C20.required_vos: properties/C20.v gen/Params.vos model/Bytes.vos model/Lru.vos model/Server.vos model/Cache.vos model/Check20.vos proofs/CacheProofs.vos proofs/ServerProofs.vos proofs/CapsProofs.vos model/Calls.vos proofs/CallsProofs.vos
+properties/C06.vo properties/C06.glob properties/C06.v.beautified properties/C06.required_vo: properties/C06.v model/Bytes.vo model/Inflight.vo model/PutQuery.vo model/Calls.vo proofs/InflightProofs.vo proofs/PutQueryProofs.vo proofs/CallsProofs.vo
+properties/C06.vio: properties/C06.v model/Bytes.vio model/Inflight.vio model/PutQuery.vio model/Calls.vio proofs/InflightProofs.vio proofs/PutQueryProofs.vio proofs/CallsProofs.vio
+properties/C06.vos properties/C06.vok properties/C06.required_vos: properties/C06.v model/Bytes.vos model/Inflight.vos model/PutQuery.vos model/Calls.vos proofs/InflightProofs.vos proofs/PutQueryProofs.vos proofs/CallsProofs.vos
 proofs/IterQueryProofs.vo proofs/IterQueryProofs.glob proofs/IterQueryProofs.v.beautified proofs/IterQueryProofs.required_vo: proofs/IterQueryProofs.v gen/Params.vo model/Bytes.vo model/Crc32c.vo model/Id.vo model/Node.vo model/BSearch.vo model/Closest.vo model/IterQuery.vo proofs/BSearchProofs.vo proofs/ClosestProofs.vo
 proofs/IterQueryProofs.vio: proofs/IterQueryProofs.v gen/Params.vio model/Bytes.vio model/Crc32c.vio model/Id.vio model/Node.vio model/BSearch.vio model/Closest.vio model/IterQuery.vio proofs/BSearchProofs.vio proofs/ClosestProofs.vio
 proofs/IterQueryProofs.vos proofs/IterQueryProofs.vok proofs/IterQueryProofs.required_vos: proofs/IterQueryProofs.v gen/Params.vos model/Bytes.vos model/Crc32c.vos model/Id.vos model/Node.vos model/BSearch.vos model/Closest.vos model/IterQuery.vos proofs/BSearchProofs.vos proofs/ClosestProofs.vos
@@ -217,12 +217,21 @@ proofs/MaintProofs.vos proofs/MaintProofs.vok proofs/MaintProofs.required_vos: p
 properties/C14.vo properties/C14.glob properties/C14.v.beautified properties/C14.required_vo: properties/C14.v gen/Params.vo model/Bytes.vo model/Crc32c.vo model/Id.vo model/Node.vo model/BSearch.vo model/Closest.vo model/RTable.vo model/Maint.vo proofs/RTableProofs.vo proofs/MaintProofs.vo
 properties/C14.vio: properties/C14.v gen/Params.vio model/Bytes.vio model/Crc32c.vio model/Id.vio model/Node.vio model/BSearch.vio model/Closest.vio model/RTable.vio model/Maint.vio proofs/RTableProofs.vio proofs/MaintProofs.vio
 properties/C14.vos properties/C14.vok properties/C14.required_vos: properties/C14.v gen/Params.vos model/Bytes.vos model/Crc32c.vos model/Id.vos model/Node.vos model/BSearch.vos model/Closest.vos model/RTable.vos model/Maint.vos proofs/RTableProofs.vos proofs/MaintProofs.vos
+model/Calls.vo model/Calls.glob model/Calls.v.beautified model/Calls.required_vo: model/Calls.v gen/Params.vo model/Bytes.vo model/PutQuery.vo
+model/Calls.vio: model/Calls.v gen/Params.vio model/Bytes.vio model/PutQuery.vio
+model/Calls.vos model/Calls.vok model/Calls.required_vos: model/Calls.v gen/Params.vos model/Bytes.vos model/PutQuery.vos
+model/Check06.vo model/Check06.glob model/Check06.v.beautified model/Check06.required_vo: model/Check06.v model/Bytes.vo model/PutQuery.vo model/Calls.vo
+model/Check06.vio: model/Check06.v model/Bytes.vio model/PutQuery.vio model/Calls.vio
+model/Check06.vos model/Check06.vok model/Check06.required_vos: model/Check06.v model/Bytes.vos model/PutQuery.vos model/Calls.vos
 model/NetModel.vo model/NetModel.glob model/NetModel.v.beautified model/NetModel.required_vo: model/NetModel.v 
 model/NetModel.vio: model/NetModel.v 
 model/NetModel.vos model/NetModel.vok model/NetModel.required_vos: model/NetModel.v 
 model/Check13.vo model/Check13.glob model/Check13.v.beautified model/Check13.required_vo: model/Check13.v model/NetModel.vo
 model/Check13.vio: model/Check13.v model/NetModel.vio
 model/Check13.vos model/Check13.vok model/Check13.required_vos: model/Check13.v model/NetModel.vos
+proofs/CallsProofs.vo proofs/CallsProofs.glob proofs/CallsProofs.v.beautified proofs/CallsProofs.required_vo: proofs/CallsProofs.v gen/Params.vo model/Bytes.vo model/PutQuery.vo model/Calls.vo
+proofs/CallsProofs.vio: proofs/CallsProofs.v gen/Params.vio model/Bytes.vio model/PutQuery.vio model/Calls.vio
+proofs/CallsProofs.vos proofs/CallsProofs.vok proofs/CallsProofs.required_vos: proofs/CallsProofs.v gen/Params.vos model/Bytes.vos model/PutQuery.vos model/Calls.vos
 proofs/NetProofs.vo proofs/NetProofs.glob proofs/NetProofs.v.beautified proofs/NetProofs.required_vo: proofs/NetProofs.v model/NetModel.vo
 proofs/NetProofs.vio: proofs/NetProofs.v model/NetModel.vio
 proofs/NetProofs.vos proofs/NetProofs.vok proofs/NetProofs.required_vos: proofs/NetProofs.v model/NetModel.vos
